@@ -1,6 +1,6 @@
 """What MANIFEST.json claims, per property (bin/mkmanifest renders it)."""
 HOOK_COMMITS = ["0d2849f", "ee1b138"]
-FIX_COMMITS = ["637e9cd", "9c26294", "53d59b1", "7c81d73", "b8335d9", "ba69dd9", "426de79", "35bd7d0", "c1ef8b6", "c8e6887", "847a1a5", "91556b7", "78156aa", "83bb8c4", "8065739", "64898f8", "70d2ff8", "96d6c55", "1ef9f29", "ec644a6", "826ef07", "d9567de", "552f738", "0658b0a"]
+FIX_COMMITS = ["637e9cd", "9c26294", "53d59b1", "7c81d73", "b8335d9", "ba69dd9", "426de79", "35bd7d0", "c1ef8b6", "c8e6887", "847a1a5", "91556b7", "78156aa", "83bb8c4", "8065739", "64898f8", "70d2ff8", "96d6c55", "1ef9f29", "ec644a6", "826ef07", "d9567de", "552f738", "0658b0a", "2e5c985"]
 
 TB = ("Trusted base: TLC; the harness projection (vertex identification, lattice-lookup fields, file parsers); "
       "the extracted tables/constants are read from the tree under test at check time.")
